@@ -560,26 +560,48 @@ impl<'a> Http2Parser<'a> {
         let stream_frames: Vec<&Http2Frame> =
             frames.iter().filter(|f| f.stream_id == stream_id).collect();
 
+        // RFC 7540 §6.2/§6.10: a header block is the fragment of a HEADERS frame (without the
+        // Pad Length / priority fields and the padding) followed by the fragments of the
+        // CONTINUATION frames after it; it is decoded as a whole.
+        let mut blocks: Vec<Vec<u8>> = Vec::new();
+        let mut pending: Option<Vec<u8>> = None;
         for frame in stream_frames {
             match frame.frame_type {
-                Http2FrameType::Headers | Http2FrameType::Continuation => {
-                    let frame_headers = self.parse_headers_payload(&frame.payload)?;
-                    for header in frame_headers {
-                        match header.name.as_str() {
-                            ":method" => method = Some(header.value.clone().unwrap_or_default()),
-                            ":path" => path = Some(header.value.clone().unwrap_or_default()),
-                            ":authority" => {
-                                authority = Some(header.value.clone().unwrap_or_default())
-                            }
-                            ":scheme" => scheme = Some(header.value.clone().unwrap_or_default()),
-                            ":status" => {
-                                status = header.value.as_ref().and_then(|v| v.parse().ok())
-                            }
-                            _ => headers.push(header),
-                        }
+                Http2FrameType::Headers => {
+                    if let Some(block) = pending.take() {
+                        blocks.push(block);
                     }
+                    let fragment = header_block_fragment(frame)
+                        .ok_or(Http2ParseError::HpackDecodingFailed)?;
+                    pending = Some(fragment.to_vec());
                 }
-                _ => {}
+                Http2FrameType::Continuation => match pending.as_mut() {
+                    Some(block) => block.extend_from_slice(&frame.payload),
+                    None => continue,
+                },
+                _ => continue,
+            }
+            if frame.flags & FLAG_END_HEADERS != 0 {
+                if let Some(block) = pending.take() {
+                    blocks.push(block);
+                }
+            }
+        }
+        if let Some(block) = pending.take() {
+            blocks.push(block);
+        }
+
+        for block in &blocks {
+            let frame_headers = self.parse_headers_payload(block)?;
+            for header in frame_headers {
+                match header.name.as_str() {
+                    ":method" => method = Some(header.value.clone().unwrap_or_default()),
+                    ":path" => path = Some(header.value.clone().unwrap_or_default()),
+                    ":authority" => authority = Some(header.value.clone().unwrap_or_default()),
+                    ":scheme" => scheme = Some(header.value.clone().unwrap_or_default()),
+                    ":status" => status = header.value.as_ref().and_then(|v| v.parse().ok()),
+                    _ => headers.push(header),
+                }
             }
         }
 
@@ -681,6 +703,28 @@ impl<'a> Http2Parser<'a> {
 
         cookies
     }
+}
+
+const FLAG_END_HEADERS: u8 = 0x4;
+const FLAG_PADDED: u8 = 0x8;
+const FLAG_PRIORITY: u8 = 0x20;
+
+/// Header block fragment of a HEADERS frame (RFC 7540 §6.2): the payload without the Pad Length
+/// octet, the stream dependency / weight fields and the trailing padding. `None` if the frame is
+/// too short for the fields its flags announce.
+pub(crate) fn header_block_fragment(frame: &Http2Frame) -> Option<&[u8]> {
+    let mut payload: &[u8] = &frame.payload;
+    let mut padding = 0usize;
+    if frame.flags & FLAG_PADDED != 0 {
+        let (&pad_length, rest) = payload.split_first()?;
+        padding = usize::from(pad_length);
+        payload = rest;
+    }
+    if frame.flags & FLAG_PRIORITY != 0 {
+        payload = payload.get(5..)?;
+    }
+    let end = payload.len().checked_sub(padding)?;
+    payload.get(..end)
 }
 
 pub fn is_http2_traffic(data: &[u8]) -> bool {
